@@ -103,14 +103,27 @@ def check(run):
         run.count("run_observed:" + ("clean" if clean else "report"))
         keep.append(it)
     core.decide(run, keep, IMPORTS, "accept_C11_run", oracle_hist, shard=400)
+    # (c) sequences of simulate_script calls on one or two engine objects (Model/Simulate.v: predicted safe, theorem C10_simulate_sequence)
+    nsim = 60 if run.tier == "quick" else 1200
+    scases = [c10.make_simulate_case(rng) for _ in range(nsim)]
+    sitems = c10.simulate_items(scases, sanitize=True)
+    for it in sitems:
+        hist = []
+        for o, k, pr in it["case"]["invocations"]:
+            hist += [["setup", o, k], ["iterate_n", o, 1001]] + ([["progress", o, None]] if pr else []) + [["get_output", o, None], ["finalize", o, None]]
+        it["gcase"] = c10.emit({"history": hist}, {})[0]
+        clean = report_of(it["obs"]) is None and "timeout" not in it["obs"] and "error" not in it["obs"]
+        it["gobs"] = g_bool(clean)
+        run.count("simulate_sequences_observed:" + ("clean" if clean else "report"))
+    core.decide(run, sitems, IMPORTS, "accept_C11_history", oracle_hist, shard=200)
     run.rule = ("sanitizer build (g++ -O1 -fsanitize=address,undefined -D_GLIBCXX_ASSERTIONS) of the engine from the working tree, loaded in "
                 "child processes with LD_PRELOAD of the ASan/UBSan runtimes: (a) all lifecycle-respecting one-object histories up to %d calls, "
                 "random histories over one and two objects (those on which the lifecycle model predicts undefined behaviour - only possible "
                 "with two objects, F13 - are not judged); (b) %d whole runs of random valid scripts: three engines, grid and graph, four "
                 "policies incl. request lists with empty tails / a single request, four init_state_processing modes, amounts below one "
                 "molecule and above 100, periodic axes of length 1 and 2, isolated nodes; each run also calls iterate after completion, "
-                "get_output twice and finalize twice. A sanitizer or assertion report, a death by signal or a hang is a violation. "
-                "non-trivial = every case (each executes the engine)" % (L, nr))
+                "get_output twice and finalize twice; (c) %d sequences of 1-4 simulate_script calls on one or two engine objects. A sanitizer or assertion report, a death by signal or a hang is a violation. "
+                "non-trivial = every case (each executes the engine)" % (L, nr, nsim))
 
 
 def replay(run, payload):
